@@ -75,6 +75,8 @@ class Ctx:
         self.fresh_n = 0
         self.ghost = {}
         self.guards = []
+        self.region = None
+        self.quiet = 0
         if self.mode == 'sym':
             self.solver = z3.Solver()
             self.solver.set('rlimit', DECIDE_RLIMIT)
@@ -197,8 +199,21 @@ class Ctx:
         if self.mode == 'conc':
             import pandas as pd
             v = self._cval(name, lambda r: 1577836800 + r.randint(0, 40) * 21600 + r.choice([0, 52200, 75600, 75599, 52199]), float)
-            return pd.Timestamp(float(v), unit='s', tz='UTC')
+            ts = pd.Timestamp(float(v), unit='s', tz='UTC')
+            exact = None
+            if getattr(self, 'model', None) is not None and name in (self.model_consts or {}):
+                exact = self.model.eval(self.model_consts[name], model_completion=True)
+            self.timeterms = getattr(self, 'timeterms', {})
+            self.timeterms.setdefault(ts.value, exact if exact is not None else z3.RealVal(repr(float(ts.timestamp()))))
+            return ts
         return SymTime(self._const(name, R))
+
+    def tterm(self, ts):
+        """concrete mode: the z3 value standing for a concrete timestamp (exact model value for declared times)"""
+        tt = getattr(self, 'timeterms', {})
+        if ts.value in tt:
+            return tt[ts.value]
+        return z3.RealVal(repr(float(ts.timestamp())))
 
     def ceval(self, term, gen=None, conv=float):
         """concrete mode: value of a z3 term (ghost function application, array cell) in the model / random"""
@@ -242,6 +257,11 @@ class Ctx:
     # ---- obligations --------------------------------------------------------------------------
     def ob(self, clause, goal, kind='P', props=None, extra=(), **meta):
         """Record obligation `clause`: under the current path condition (+extra), goal holds."""
+        if self.quiet and kind == 'A' and clause.split('@')[0] in ('div-nonzero', 'nan-safe', 'not-none'):
+            return          # definedness of SPEC-side terms (total functions), not of the code
+        if self.region and 'region' not in meta:
+            # input region of the property's quantifier that is reported separately (known-finding matching)
+            clause, meta = '[%s]/%s' % (self.region, clause), dict(meta, region=self.region)
         if self.mode == 'conc':
             ok = truth(goal) if not extra or all(truth(e) for e in extra) else True
             self.conc_results.append((clause, kind, bool(ok), meta))
@@ -486,9 +506,26 @@ def ITE(c, a, b):
     return a if c else b
 
 
+def _int_shaped(t):
+    """syntactic: the term is built from ToReal(int), integer numerals, +, -, *, if-then-else"""
+    if z3.is_rational_value(t):
+        return t.denominator_as_long() == 1
+    k = t.decl().kind() if z3.is_app(t) else None
+    if k == z3.Z3_OP_TO_REAL:
+        return True
+    if k == z3.Z3_OP_ITE:
+        return _int_shaped(t.arg(1)) and _int_shaped(t.arg(2))
+    if k in (z3.Z3_OP_UMINUS, z3.Z3_OP_ADD, z3.Z3_OP_SUB, z3.Z3_OP_MUL):
+        return all(_int_shaped(a) for a in t.children())
+    return False
+
+
 def ISINT(x):
     if _anysym(x):
-        return z3.IsInt(lift(x))
+        t = lift(x)
+        if _int_shaped(t) or _int_shaped(z3.simplify(t)):
+            return z3.BoolVal(True)
+        return z3.IsInt(t)
     return _close(float(x), round(float(x)))
 
 
